@@ -142,6 +142,9 @@ def run(ctx):
           variants.append(dict(kwr, prior='covariance'))
         if name == 'MMC':
           variants.append(dict(kwr, init='covariance'))
+        if name in ('RCA', 'LFDA') and d >= 2:
+          # the dimension-reducing branches (generalised eigenproblem): every n_components below d
+          variants += [dict(kwr, n_components=k) for k in range(1, d)]
         for kv in variants:
           ctx.count('rotation', 1)
           ctx.seen((name, 'rotation', rep, repr(sorted((k, str(v)) for k, v in kv.items()))), True)
